@@ -2,7 +2,7 @@
 //! default stack size, then clones / queries / drops, acknowledging every stage with a line.
 //! A stack overflow kills the process with a signal, which is what the parent looks for.
 //!
-//! usage: c20_child <seed> <turns> <policy 0|1> <order 0..>
+//! usage: c20_child <seed> <turns> <policy 0|1|2> <order 0..>   (policy 2 = out and back)
 use arimaa_engine_step::{Action, GameState, Piece};
 use std::io::Write;
 
@@ -95,8 +95,145 @@ fn play(seed: u64, turns: usize, policy: u64) -> (GameState, usize) {
     (g, turns_done)
 }
 
+/// Policy 2, "out and back": both sides shuffle their officers inside their own three home ranks with
+/// one-step turns for half of the game, then take the turns back in reverse order (gold its last one,
+/// silver its last one, ...). Nothing ever touches, so every step can be taken back; on the way back the
+/// start-of-turn positions occur for the second time, and the distance between a position and its earlier
+/// occurrence grows to the length of the whole game. Only offered actions are taken.
+/// Returns the final state, the number of turns played and gold's very first step.
+fn play_out_and_back(seed: u64, turns: usize) -> (GameState, usize, Option<Action>) {
+    use arimaa_engine_step::{Direction, Square};
+    let mut rng = seed;
+    let mut g: GameState = START.parse().expect("start position");
+    let in_zone = |gold: bool, sq: &Square, d: &Direction| -> bool {
+        let i = sq.index() as i32;
+        let to = match d {
+            Direction::Up => i - 8,
+            Direction::Down => i + 8,
+            Direction::Left => i - 1,
+            Direction::Right => i + 1,
+        };
+        let row = to / 8;
+        if gold {
+            row >= 5
+        } else {
+            row <= 2
+        }
+    };
+    let inverse = |a: &Action| -> Option<Action> {
+        if let Action::Move(sq, d) = a {
+            let i = sq.index() as i32;
+            let (to, back) = match d {
+                Direction::Up => (i - 8, Direction::Down),
+                Direction::Down => (i + 8, Direction::Up),
+                Direction::Left => (i - 1, Direction::Right),
+                Direction::Right => (i + 1, Direction::Left),
+            };
+            Some(Action::Move(Square::from_index(to as u8), back))
+        } else {
+            None
+        }
+    };
+    let mut made: Vec<Action> = vec![];
+    let mut seen: std::collections::HashSet<[u64; 6]> = std::collections::HashSet::new();
+    for side in [true, false] {
+        let pb = g.piece_board();
+        let mine = pb.player_piece_mask(side);
+        seen.insert([side as u64, pb.elephants & mine, pb.camels & mine, pb.horses & mine, pb.dogs & mine, pb.cats & mine]);
+    }
+    let mut turns_done = 0usize;
+    let half = turns / 2 / 2 * 2; // an even number of turns out, so that gold is on move again
+    while turns_done < half {
+        if g.is_terminal().is_some() {
+            break;
+        }
+        let offered = g.valid_actions();
+        let side = g.is_p1_turn_to_move();
+        let pool: Vec<Action> = quiet_steps(&g, &offered).into_iter().filter(|a| matches!(a, Action::Move(sq, d) if in_zone(side, sq, d))).collect();
+        if pool.is_empty() {
+            break;
+        }
+        // a step whose result has not been seen on the way out (so that every position of the way out
+        // occurs once, and a second time on the way back)
+        let start = (splitmix(&mut rng) % pool.len() as u64) as usize;
+        let mut chosen = None;
+        for i in 0..pool.len() {
+            let a = pool[(start + i) % pool.len()];
+            let n = g.take_action(&a);
+            if !n.valid_actions().contains(&Action::Pass) {
+                continue;
+            }
+            let after = n.take_action(&Action::Pass);
+            // the mover's own arrangement must be new: then no pairing of a gold arrangement with a
+            // silver arrangement can come about a third time, neither on the way out nor on the way back
+            let pb = after.piece_board();
+            let mine = pb.player_piece_mask(side);
+            let key = [side as u64, pb.elephants & mine, pb.camels & mine, pb.horses & mine, pb.dogs & mine, pb.cats & mine];
+            if seen.insert(key) {
+                chosen = Some((a, after));
+                break;
+            }
+        }
+        let (a, after) = match chosen {
+            Some(x) => x,
+            None => break,
+        };
+        g = after;
+        made.push(a);
+        turns_done += 1;
+        if turns_done % 5000 == 0 {
+            say(&format!("PROGRESS out turns={} history={}", turns_done, g.unwrap_play_phase().hash_history().len()));
+        }
+    }
+    if made.len() % 2 == 1 {
+        // silver's turn is missing: take gold's last one out of the plan (it stays on the board)
+        made.pop();
+    }
+    let first = made.first().copied();
+    // back: pairs (gold's k-th, silver's k-th) from the last pair to the first, gold first
+    let mut k = made.len();
+    'back: while k >= 2 {
+        for idx in [k - 2, k - 1] {
+            let inv = match inverse(&made[idx]) {
+                Some(x) => x,
+                None => break 'back,
+            };
+            if g.is_terminal().is_some() || !g.valid_actions().contains(&inv) {
+                say(&format!("NOTE way back ended at plan index {}: step {} not offered", idx, inv));
+                break 'back;
+            }
+            let n = g.take_action(&inv);
+            if !n.valid_actions().contains(&Action::Pass) {
+                say(&format!("NOTE way back ended at plan index {}: pass not offered after {}", idx, inv));
+                break 'back;
+            }
+            g = n.take_action(&Action::Pass);
+            turns_done += 1;
+            if turns_done % 5000 == 0 {
+                say(&format!("PROGRESS back turns={} history={}", turns_done, g.unwrap_play_phase().hash_history().len()));
+            }
+        }
+        k -= 2;
+    }
+    (g, turns_done, if k == 0 { first } else { None })
+}
+
 fn body(seed: u64, turns: usize, policy: u64, order: u64) {
-    let (g, done) = play(seed, turns, policy);
+    let (g, done) = if policy == 2 {
+        let (g, done, first) = play_out_and_back(seed, turns);
+        // the whole way back was possible: gold makes its very first step again, whose result (with a
+        // pass) occurred once, as far back as the game is long
+        if let Some(a) = first {
+            if g.valid_actions().contains(&a) {
+                let n = g.take_action(&a);
+                let acc = n.valid_actions().len() + n.valid_actions_no_rep().len() + n.can_pass(true) as usize + n.can_pass(false) as usize + n.is_terminal().is_some() as usize + n.has_move(n.piece_board()).is_some() as usize;
+                say(&format!("STAGE first_step_made_again_after_the_way_back {}", acc));
+            }
+        }
+        (g, done)
+    } else {
+        play(seed, turns, policy)
+    };
     let hist = g.as_play_phase().map(|p| p.hash_history().len()).unwrap_or(0);
     say(&format!("PLAYED turns={} history={}", done, hist));
     let clone = g.clone();
